@@ -317,6 +317,8 @@ func (e *plExec) Do(line string) string {
 		return e.probe(a[0])
 	case "busprobe":
 		return e.busProbe(atoi(a[0]), line)
+	case "cloneprobe":
+		return e.cloneProbe(atoi(a[0]), atoi(a[1]), line)
 	case "dump":
 		m := e.msgs[atoi(a[0])]
 		if m == nil {
@@ -605,6 +607,25 @@ func (e *plExec) mutate(cmd string, a []string, line string) (out string) {
 		}
 		s := e.sigs[atoi(a[1])]
 		if s != nil && (s.ParentMessage() != nil || s.ParentMultiplexerSignal() != nil) {
+			// re-attachment is outside the model (D25).  One case is decided by the property all the
+			// same: a position the target message must refuse whatever it contains (before the payload
+			// or behind it) — the refusal must leave the signal, its parent and both messages as they
+			// were.  The real call is made, the answer of the line stays `unsupported`.
+			if cmd == "msg.ins" && len(a) > 2 && s.ParentMessage() != nil && s.ParentMessage() != m &&
+				m.SizeByte() >= 0 && m.SizeByte() <= 64 && (atoi(a[2]) < 0 || atoi(a[2]) >= m.SizeByte()*8) {
+				home := s.ParentMessage()
+				before := e.worldSnap()
+				err := m.InsertSignal(s, atoi(a[2]))
+				switch {
+				case err == nil:
+					e.fail("C05", "reattach-accepted-outside-payload", sprintf("%s: a signal that sits in another message was accepted at bit %d of a %d-byte message", line, atoi(a[2]), m.SizeByte()))
+					_ = m.RemoveSignal(s.EntityID())
+				case s.ParentMessage() != home:
+					e.fail("C05", "refused-reattach-changed-parent", sprintf("%s: refused (%v), but the signal's parent message is no longer the message that lists it", line, errOut(err)))
+				case e.worldSnap() != before:
+					e.fail("C06", "rejected-but-changed", sprintf("%s -> %s (a refused re-attachment changed the world)", line, errOut(err)))
+				}
+			}
 			return "unsupported"
 		}
 		pre := e.msgSnap(m)
@@ -1056,6 +1077,40 @@ func (g *plGen) step() {
 			} else {
 				g.emit(sprintf("pl msg.ins %d %d %d", m, s, g.startNear(m, sg, capBits)))
 			}
+			// a signal that sits in one message is offered to ANOTHER message at a position that
+			// message must refuse (before its payload, behind it): the refusal must leave the signal
+			// and both messages exactly as they were (its parent too)
+			if r.Intn(6) == 0 && len(g.msgs) >= 2 {
+				for try := 0; try < 6; try++ {
+					s2 := g.anyOf(g.sigs)
+					sg2 := g.ex.sigs[s2]
+					if sg2 == nil || sg2.ParentMessage() == nil {
+						continue
+					}
+					m2 := g.anyOf(g.msgs)
+					msg2 := g.ex.msgs[m2]
+					if msg2 == nil || msg2 == sg2.ParentMessage() || msg2.SizeByte() < 0 || msg2.SizeByte() > 64 {
+						continue
+					}
+					pos := -1 - r.Intn(4)
+					if r.Intn(2) == 0 {
+						pos = msg2.SizeByte()*8 + r.Intn(9)
+					}
+					home := -1
+					for k, v := range g.ex.msgs {
+						if v == sg2.ParentMessage() {
+							home = k
+						}
+					}
+					g.emit(sprintf("pl msg.ins %d %d %d", m2, s2, pos))
+					if home >= 0 {
+						g.emit(sprintf("pl dump %d", home))
+					}
+					g.emit(sprintf("pl dump %d", m2))
+					g.emit(sprintf("pl sdump %d", s2))
+					break
+				}
+			}
 		}
 	case k < 74:
 		if len(g.msgs) > 0 {
@@ -1149,6 +1204,13 @@ func (g *plGen) observe() {
 	}
 	if len(g.msgs) > 0 && r.Intn(4) == 0 {
 		g.emit(sprintf("oracle pl busprobe %d", g.msgs[r.Intn(len(g.msgs))]))
+	}
+	if len(g.types) > 0 && r.Intn(6) == 0 {
+		en := -1
+		if len(g.enums) > 0 {
+			en = g.enums[r.Intn(len(g.enums))]
+		}
+		g.emit(sprintf("oracle pl cloneprobe %d %d", g.types[r.Intn(len(g.types))], en))
 	}
 	if len(g.enums) > 0 && r.Intn(2) == 0 {
 		g.emit(sprintf("pl edump %d", g.enums[r.Intn(len(g.enums))]))
